@@ -204,7 +204,7 @@ static int new_slot(size_t size)
     if (nblk >= MAXBLK) sim_skip("allocator-slots-exhausted");
     b = &blk[nblk];
     memset(b, 0, sizeof(*b));
-    if (cfg.place == PLACE_FAR && cap <= 65536 && far_count < 900 && rng_chance(&arng, 1, 2)) {
+    if (cfg.place == PLACE_FAR && cap <= 65536 && far_count < 600 && rng_chance(&arng, 1, 2)) {
         b->far = 1;
         fidx[nfidx++] = nblk;
         b->addr = far_bump + REDZONE;
